@@ -16,7 +16,8 @@ func nativeModel(string) bool { return false }
 
 func (f *frame) execBlock(b *ssa.BasicBlock, st *state, reach string) {
 	vc := f.vc
-	for _, in := range b.Instrs {
+	for ii, in := range b.Instrs {
+		f.curBlock, f.curIdx = b, ii
 		switch x := in.(type) {
 		case *ssa.Phi:
 			// handled at block entry
@@ -264,7 +265,7 @@ func (f *frame) execValue(v ssa.Value, st *state, reach string) *sym {
 		mt := x.Type().Underlying().(*types.Map)
 		dk, _ := vc.mapKeys(mt)
 		d := vc.hget(st, dk)
-		vc.hset(st, dk, fmt.Sprintf("(store %s %s ((as const (Array %s Bool)) false))", d, r, so.sortOf(mt.Key())))
+		vc.hset(st, dk, fmt.Sprintf("(store %s %s %s)", d, r, vc.constArray(so.sortOf(mt.Key()), "Bool", "false")))
 		return &sym{t: r, typ: x.Type()}
 	case *ssa.MakeChan:
 		return &sym{t: f.newRef(st, reach, "chan"), typ: x.Type()}
@@ -273,7 +274,7 @@ func (f *frame) execValue(v ssa.Value, st *state, reach string) *sym {
 		el := x.Type().Underlying().(*types.Slice).Elem()
 		ek := vc.elemKey(el)
 		e := vc.hget(st, ek)
-		vc.hset(st, ek, fmt.Sprintf("(store %s %s ((as const (Array Int %s)) %s))", e, r, so.sortOf(el), so.zero(el)))
+		vc.hset(st, ek, fmt.Sprintf("(store %s %s %s)", e, r, vc.constArray("Int", so.sortOf(el), so.zero(el))))
 		ln, cp := f.term(x.Len), f.term(x.Cap)
 		if vc.safety {
 			vc.oblige("safety:makeslice@"+valName(x), "", reach, fmt.Sprintf("(and (<= 0 %s) (<= %s %s))", ln, ln, cp), x.Pos(), "makeslice: len in range", nil)
@@ -285,7 +286,7 @@ func (f *frame) execValue(v ssa.Value, st *state, reach string) *sym {
 		s := f.val(x.X)
 		rs := &sym{t: "nil", typ: x.Type()}
 		if mt, ok := x.X.Type().Underlying().(*types.Map); ok {
-			vis := fmt.Sprintf("((as const (Array %s Bool)) false)", so.sortOf(mt.Key()))
+			vis := vc.constArray(so.sortOf(mt.Key()), "Bool", "false")
 			f.rangeSt[x] = &rangeRec{m: s, visited: vis}
 			f.setVisited(x, st, vis)
 		}
@@ -355,7 +356,7 @@ func (f *frame) zeroInit(st *state, p *sym, t types.Type) {
 	if arr, ok := t.Underlying().(*types.Array); ok {
 		ek := vc.elemKey(arr.Elem())
 		e := vc.hget(st, ek)
-		vc.hset(st, ek, fmt.Sprintf("(store %s %s ((as const (Array Int %s)) %s))", e, p.t, vc.w.so.sortOf(arr.Elem()), vc.w.so.zero(arr.Elem())))
+		vc.hset(st, ek, fmt.Sprintf("(store %s %s %s)", e, p.t, vc.constArray("Int", vc.w.so.sortOf(arr.Elem()), vc.w.so.zero(arr.Elem()))))
 		return
 	}
 	vc.writePlace(st, &place{kind: plCell, root: p.t, elemT: t, typ: t}, vc.w.so.zero(t))
@@ -884,6 +885,46 @@ func (f *frame) execGo(x *ssa.Go, st *state, reach string) {
 		}
 		vc.oblige(fmt.Sprintf("pre@go_%s#%d", rel, ord), label, reach, env.boolExpr(r.E), x.Pos(), r.Src, nil)
 	}
+	// ghost effects of spawning (e.g. a launch counter)
+	if len(c.SpawnMod) > 0 || len(c.SpawnEns) > 0 {
+		pre := st.clone()
+		envPre := f.calleeEnv(c, callee, args, binds, pre, pre)
+		f.applyMods(c.SpawnMod, envPre, st, reach, rel)
+		envPost := f.calleeEnv(c, callee, args, binds, st, pre)
+		for _, e := range c.SpawnEns {
+			vc.assume(reach, envPost.boolExpr(e.E))
+		}
+	}
+}
+
+func (f *frame) applyMods(mods []ModLoc, envPre *env, st *state, reach, rel string) {
+	vc := f.vc
+	for _, m := range mods {
+		switch {
+		case m.Star:
+			vc.havocAll(st, reach)
+		case m.Ghost != "":
+			k, so, ok := vc.ghostKey(m.Ghost)
+			if !ok {
+				fail("%s: unknown ghost %s", rel, m.Ghost)
+			}
+			st.h[k] = vc.fresh("g_"+m.Ghost, so)
+		case m.Heap != "":
+			for _, k := range envPre.heapKeysOfSpec(m.Heap) {
+				st.h[k] = vc.fresh("h_"+k, vc.heapSort(k))
+			}
+		default:
+			for _, kl := range envPre.modPlace(m.Place) {
+				so := vc.heapSort(kl.key)
+				if kl.ref == "" || !strings.HasPrefix(so, "(Array Ref ") {
+					st.h[kl.key] = vc.fresh("h_"+kl.key, so)
+				} else {
+					inner := so[len("(Array Ref ") : len(so)-1]
+					vc.hset(st, kl.key, "(store "+vc.hget(st, kl.key)+" "+kl.ref+" "+vc.fresh("hv", inner)+")")
+				}
+			}
+		}
+	}
 }
 
 func (f *frame) callArgs(com *ssa.CallCommon, callee *ssa.Function) (args []*sym, binds []*sym) {
@@ -985,32 +1026,7 @@ func (f *frame) applyContract(c *Contract, rel string, callee *ssa.Function, arg
 		}
 	}
 	// frame
-	for _, m := range c.Modifies {
-		switch {
-		case m.Star:
-			vc.havocAll(st, reach)
-		case m.Ghost != "":
-			k, so, ok := vc.ghostKey(m.Ghost)
-			if !ok {
-				fail("%s: unknown ghost %s", rel, m.Ghost)
-			}
-			st.h[k] = vc.fresh("g_"+m.Ghost, so)
-		case m.Heap != "":
-			for _, k := range envPre.heapKeysOfSpec(m.Heap) {
-				st.h[k] = vc.fresh("h_"+k, vc.heapSort(k))
-			}
-		default:
-			for _, kl := range envPre.modPlace(m.Place) {
-				so := vc.heapSort(kl.key)
-				if kl.ref == "" || !strings.HasPrefix(so, "(Array Ref ") {
-					st.h[kl.key] = vc.fresh("h_"+kl.key, so)
-				} else {
-					inner := so[len("(Array Ref ") : len(so)-1]
-					vc.hset(st, kl.key, "(store "+vc.hget(st, kl.key)+" "+kl.ref+" "+vc.fresh("hv", inner)+")")
-				}
-			}
-		}
-	}
+	f.applyMods(c.Modifies, envPre, st, reach, rel)
 	// results
 	var res *sym
 	if c.Pure {
@@ -1318,7 +1334,7 @@ func (f *frame) execAppend(com *ssa.CallCommon, st *state, reach string, rt type
 		// len(x) == 1: content = store(shifted, len(s), x[0])
 		vc.assume(reach, fmt.Sprintf("(=> (= (slen %s) 1) (= %s (store %s (slen %s) (select %s (sidx %s 0)))))", x, content, shifted, s, xold, x))
 		vc.assume(reach, fmt.Sprintf("(=> (= (slen %s) 0) (= %s %s))", x, content, shifted))
-		vc.assume(reach, fmt.Sprintf("(=> (> (slen %s) 1) (forall ((i Int)) (! (and (=> (and (<= 0 i) (< i (slen %s))) (= (select %s i) (select %s i))) (=> (and (<= (slen %s) i) (< i (+ (slen %s) (slen %s)))) (= (select %s i) (select %s (sidx %s (- i (slen %s)))))) :pattern ((select %s i)))))",
+		vc.assume(reach, fmt.Sprintf("(=> (> (slen %s) 1) (forall ((i Int)) (! (and (=> (and (<= 0 i) (< i (slen %s))) (= (select %s i) (select %s i))) (=> (and (<= (slen %s) i) (< i (+ (slen %s) (slen %s)))) (= (select %s i) (select %s (sidx %s (- i (slen %s))))))) :pattern ((select %s i)))))",
 			x, s, content, shifted, s, s, x, content, xold, x, s, content))
 	}
 	vc.hset(st, ek, fmt.Sprintf("(store %s %s %s)", e, nb, content))
@@ -1356,6 +1372,7 @@ func (f *frame) siteAsserts(kind, rel, when string, args, results []*sym, st *st
 		}
 		vc.sitesHit[sc]++
 		e := vc.topEnv(f, st)
+		e.usePoint()
 		for i, a := range args {
 			e.vars[fmt.Sprintf("arg%d", i)] = a
 		}
@@ -1458,4 +1475,24 @@ func sortedKeys(m map[string]bool) []string {
 	}
 	sort.Strings(ks)
 	return ks
+}
+
+
+// constArray: an array that maps every index to the given term.  Literal values use (as const ...); other
+// terms (nil, zero structs) use a declared array with a quantified axiom, which every installed solver accepts.
+func (vc *FnVC) constArray(idxSort, elemSort, term string) string {
+	literal := term == "true" || term == "false" || term == "0" || term == "\"\"" || term == "0.0"
+	if literal {
+		return fmt.Sprintf("((as const (Array %s %s)) %s)", idxSort, elemSort, term)
+	}
+	name := "constarr_" + mangle(idxSort+"_"+elemSort+"_"+term)
+	if len(name) > 80 {
+		name = name[:80]
+	}
+	if !vc.declared[name] {
+		vc.declared[name] = true
+		vc.emit(fmt.Sprintf("(declare-const %s (Array %s %s))", name, idxSort, elemSort))
+		vc.emit(fmt.Sprintf("(assert (forall ((ci %s)) (! (= (select %s ci) %s) :pattern ((select %s ci)))))", idxSort, name, term, name))
+	}
+	return name
 }
